@@ -174,6 +174,11 @@ def c12(tier, seed):
                        label_prefix="abandoned-", start_index=60000)
     cases += seq_cases(prop, "walk", ["rel"], tier_n(tier, 4, 60), tier_n(tier, 3000, 8000), seed, extra_args=["--threads", 1, "--abandon-ok", 1],
                        env={"MIMALLOC_VISIT_ABANDONED": "1", "MIMALLOC_DISALLOW_ARENA_ALLOC": "1"}, label_prefix="abandoned-os-", start_index=61000)
+    # ... and with reclaim-on-free, where a free by another thread takes an abandoned segment out of the middle of the abandoned set
+    cases += seq_cases(prop, "walk", ["rel", "dbg"], tier_n(tier, 8, 100), tier_n(tier, 3000, 8000), seed, extra_args=["--threads", 1, "--abandon-ok", 1],
+                       env={"MIMALLOC_VISIT_ABANDONED": "1", "MIMALLOC_DISALLOW_ARENA_ALLOC": "1", "MIMALLOC_ABANDONED_RECLAIM_ON_FREE": "1"}, label_prefix="abandoned-os-rof-", start_index=62000)
+    cases += seq_cases(prop, "walk", ["rel"], tier_n(tier, 4, 60), tier_n(tier, 3000, 8000), seed, extra_args=["--threads", 1, "--abandon-ok", 1],
+                       env={"MIMALLOC_VISIT_ABANDONED": "1", "MIMALLOC_ABANDONED_RECLAIM_ON_FREE": "1"}, label_prefix="abandoned-rof-", start_index=63000)
     v = Verdict(prop)
     for c in core.run_cases(cases): v.add(c)
     cov = seq_cov(cases)
